@@ -512,41 +512,6 @@ func main() {
 			cfg.Cases = append(cfg.Cases, runCfg(c, &fails).toCase("corpus"))
 		}
 	}
-	// construction from the options in every order, default pacer / caller's leaky bucket pacer
-	{
-		probeBWE, err := gcc.NewSendSideBWE()
-		if err != nil {
-			panic(err)
-		}
-		_, cfgHook := interface{}(probeBWE).(pacerTargeter)
-		_ = probeBWE.Close()
-		extra["pacer_target_hook_present"] = cfgHook
-		ncfg := o.Scale(320, 6000)
-		cres := make([]cfgCase, ncfg)
-		cbs := make([][]string, ncfg)
-		csem := make(chan struct{}, 8)
-		var cwg sync.WaitGroup
-		var cmu sync.Mutex
-		for i := 0; i < ncfg; i++ {
-			c, b := genCfg(r, i, cfgHook)
-			cbs[i] = b
-			cwg.Add(1)
-			csem <- struct{}{}
-			go func(i int, c cfgCase) {
-				defer cwg.Done()
-				var lf []cq.ImplFailure
-				cres[i] = runCfg(c, &lf)
-				cmu.Lock()
-				fails = append(fails, lf...)
-				cmu.Unlock()
-				<-csem
-			}(i, c)
-		}
-		cwg.Wait()
-		for i, c := range cres {
-			cfg.Cases = append(cfg.Cases, c.toCase(cbs[i]...))
-		}
-	}
 	n := o.Scale(1500, 30000)
 	for i := 0; i < n; i++ {
 		c, b := genDec(r)
@@ -625,6 +590,42 @@ func main() {
 		}
 	}
 	extra["loss_hook_present"] = hook
+	// construction from the options in every order, default pacer / caller's leaky bucket pacer (after the older sets:
+	// the default pacers' tickers would keep the runtime's deadlock detection from ending a run that an older set hangs in)
+	{
+		probeBWE, err := gcc.NewSendSideBWE()
+		if err != nil {
+			panic(err)
+		}
+		_, cfgHook := interface{}(probeBWE).(pacerTargeter)
+		_ = probeBWE.Close()
+		extra["pacer_target_hook_present"] = cfgHook
+		ncfg := o.Scale(320, 6000)
+		cres := make([]cfgCase, ncfg)
+		cbs := make([][]string, ncfg)
+		csem := make(chan struct{}, 8)
+		var cwg sync.WaitGroup
+		var cmu sync.Mutex
+		for i := 0; i < ncfg; i++ {
+			c, b := genCfg(r, i, cfgHook)
+			cbs[i] = b
+			cwg.Add(1)
+			csem <- struct{}{}
+			go func(i int, c cfgCase) {
+				defer cwg.Done()
+				var lf []cq.ImplFailure
+				cres[i] = runCfg(c, &lf)
+				cmu.Lock()
+				fails = append(fails, lf...)
+				cmu.Unlock()
+				<-csem
+			}(i, c)
+		}
+		cwg.Wait()
+		for i, c := range cres {
+			cfg.Cases = append(cfg.Cases, c.toCase(cbs[i]...))
+		}
+	}
 	// pure functions
 	vals := []int64{-9000000000000000000, -1, 0, 1, 5000, 100000, 50000000, 9000000000000000000}
 	for _, a := range vals {
